@@ -6,6 +6,21 @@
 // for it under its own watchdog, and then decides from what the child left
 // behind: race reports, the event log (call/return stamps of one monotonic
 // clock), goroutine dumps, probe results, and the replica directories.
+//
+// Observations outside the statement (not decided by this check):
+//
+//   - database/sql rolls a transaction back by itself when the context it was
+//     begun under is cancelled. litestream's long-running read transaction is
+//     begun in acquireReadLock(ctx) with the context of whichever call happened
+//     to run init() or the last checkpoint (execCheckpoint re-acquires it with
+//     the caller's ctx). When that was a caller context that is cancelled later
+//     (POST /sync with a timeout, Store.SyncDB(ctx) with defer cancel()), the
+//     read lock is silently lost afterwards: nothing prevents the application
+//     from checkpointing until the next checkpoint re-takes it. Replication
+//     stays safe (verify() re-snapshots), so C12 is not violated by it. The
+//     same mechanism hides a read lock that Close forgot to release, which is
+//     why the probes here keep the context handed to UnregisterDB/Store.Close
+//     alive until after the lock probe.
 package c12
 
 import (
